@@ -371,6 +371,12 @@ def rule_client_immutable(fm, rep, rid='R7'):
            and f['name'] in ('prefix', 'tags', 'container_id')]
     rep.ob(rid, 'client-config-has-no-interior-mutability', not bad, '', 'prefix/tags/container_id are plain data' if not bad else 'interior mutability in %s' % bad)
     muts = [b for b in cad.all_bodies if any(l.replace(' ', '') == '&mut' + SC for l in b.locals[1:b.arg_count + 1])]
+    # a destructor gets `&mut self` by signature; it counts only if it writes a field of the client
+
+    def _writes_field(b):
+        return any(s['k'] == 'assign' and s['place']['l'] == 1 and any(e[0] == 'field' for e in s['place']['p'])
+                   for blk in b.blocks for s in blk['stmts'])
+    muts = [b for b in muts if not ((b.impl_trait or '').endswith('::Drop') and not _writes_field(b))]
     rep.ob(rid, 'no-mutating-client-method', not muts, muts[0].where() if muts else '', 'no function takes &mut StatsdClient' if not muts else '%s takes &mut StatsdClient' % [b.short() for b in muts])
 
 
@@ -473,6 +479,50 @@ def rule_decoration(fm, rep, rid='R1', kinds=True):
     fm._tag_callees, fm._cid_callees, fm._tag_args = tag_callees, cid_callees, tag_args
 
 
+def _build_moves(cad, rep, rid, roles):
+    """StatsdClientBuilder::build() (the public way from a configured builder to a client) hands every configured field
+    to the client as it was configured - nothing is dropped, replaced or wrapped on the way"""
+    bs = cad.method(SCB, 'build')
+    b = one(rep, rid, 'StatsdClientBuilder::build', bs)
+    if b is None:
+        return
+    rep.analysed(b)
+    rts = ret_terms(Terms(inl(cad, b)), [0])
+    ok = False
+    msg = 'build() has %d return shapes' % len(rts)
+    if len(rts) == 1 and list(rts)[0][0] == 'adt':
+        badf = []
+        for role in roles:
+            cf, bf = client_field_path(cad, role), client_field_path(cad, role, SCB)
+            if cf is None or bf is None or deep_peel(get_path(list(rts)[0], cf)) != mk_path(('param', 1), bf):
+                badf.append('.'.join(cf) if cf else role)
+        ok = not badf
+        msg = 'build() does not hand over as configured: %s' % [(n_, fmt(get_path(list(rts)[0], tuple(n_.split('.'))))[:80]) for n_ in badf]
+    rep.ob(rid, 'build-moves-config-unchanged/%s' % '+'.join(roles), ok, b.where(), 'build() moves %s from the builder into the client unchanged' % ', '.join(roles) if ok else msg)
+
+
+def rule_handler_config(fm, rep, rid='R4c'):
+    """the error handler the client calls is the function the user configured: with_error_handler stores its argument
+    (boxed, nothing wrapped around it) and build() moves it into the client"""
+    cad = fm.cad
+    b = one(rep, rid, 'StatsdClientBuilder::with_error_handler', cad.method(SCB, 'with_error_handler'))
+    if b is not None:
+        rep.analysed(b)
+        rts = ret_terms(Terms(inl(cad, b)), [0])
+        bf = client_field_path(cad, 'errors', SCB)
+        ok = False
+        v = None
+        if len(rts) == 1 and bf is not None:
+            v = get_path(list(rts)[0], bf)
+            x = v
+            while x is not None and x[0] in ('unsize', 'conv'):
+                x = x[1]
+            ok = x is not None and term_callee_is(x, 'alloc::boxed::Box::new') and peel(x[2][0]) == ('param', 2)
+        rep.ob(rid, 'builder/with_error_handler-stores-the-handler', ok, b.where(), 'errors = Box::new(handler)' if ok else
+               'with_error_handler stores %s instead of the handler it was given' % (fmt(v)[:120] if v is not None else '?'))
+    _build_moves(cad, rep, rid, ('errors',))
+
+
 def rule_tag_plumbing(fm, rep, rid='R2'):
     cad = fm.cad
     if not fm.need_roles(rep, ('tags',)):
@@ -527,6 +577,7 @@ def rule_tag_plumbing(fm, rep, rid='R2'):
             ok = not badf
             msg = 'fields not moved unchanged from the builder: %s' % [(n, fmt(get_path(list(rts)[0], tuple(n.split('.'))))[:80]) for n in badf]
         rep.ob(rid, 'from_builder-moves-config-unchanged', ok, b.where(), 'sink, errors, tags, container_id are moved as configured' if ok else msg)
+    _build_moves(cad, rep, rid, ('sink', 'tags', 'container_id'))
     nb = one(rep, 'R5', 'StatsdClientBuilder::new', [names(cad).scb_new] if names(cad).scb_new is not None else [])
     if nb is not None:
         rts = ret_terms(Terms(nb), [0])
